@@ -1,10 +1,16 @@
 """C09 - main loop: bounded, stops only at a fixed point, returns what it scored (trace specification)."""
+import itertools
+
+import numpy as np
+
 from ticcmon import e2e_check
-from ticcmon.checks import e2e_common as ec
+from ticcmon.checks import common, e2e_common as ec
 
 LEVEL = "exploration"
 RULE = ("traced runs with iteration_limit in {1,2,3,20,1000}, forced initial labellings that trigger repopulation in later rounds, both "
-        "front ends; every run's phase trace is checked offline against the round grammar; non-trivial = completed run with >=2 rounds; "
+        "front ends; every run's phase trace is checked offline against the round grammar; plus forced histories in which the labelling of "
+        "every round is scripted by the harness (all sequences of <=3 (thorough 4) symbols over {A, B, C, A with one point moved, a labelling that "
+        "empties a cluster} x limits {1,2,3,4,6}; and 24 000-point runs whose consecutive labellings differ in 0..3 points); non-trivial = completed run with >=2 rounds; "
         "distinct by case hash")
 ASSUMPTIONS = ["phases observed at the module-attribute call boundary of the real main loop",
                "per-task optimality certificate only when the worker's exit record says the stopping rule fired"]
@@ -17,6 +23,12 @@ def plan(tier, seed):
     specs = ec.plan_e2e(seed, 9, MIX, 180 if tier == "quick" else 2000, nwcap=12 if tier == "quick" else 24)
     if tier == "thorough":
         specs += ec.fixture_specs()
+    parts = 10 if tier == "quick" else 16
+    for p in range(parts):
+        specs.append(dict(name="scripted-%d" % p, mode="interp", what="scripted", part=p, parts=parts, maxlen=3 if tier == "quick" else 4,
+                          seed=[seed, 99, p]))
+    for p in range(2 if tier == "quick" else 8):
+        specs.append(dict(name="scripted-big-%d" % p, mode="interp", what="scripted_big", idx=p, seed=[seed, 999, p]))
     return specs
 
 
@@ -24,8 +36,52 @@ def nontrivial(run, I):
     return "r" if I.counts.get("rounds", 0) >= 2 else None
 
 
+SYMBOLS = ["A", "B", "C", "A+1", "E"]
+LIMITS = [1, 2, 3, 4, 6]
+
+
+def scripted_case(pattern, limit, seed, T=64, N=1, W=1, K=2):
+    return dict(front="single", data=dict(gen="regime", seed=int(seed), T=T + W - 1, N=N, n_reg=K, seg=8, scale=1.0, flavor="plain"),
+                W=W, K=K, beta=dict(form="float", value=1.0), lam=dict(form="float", value=0.11), m=2, limit=int(limit), biased=True, eps=0.0,
+                nproc=1, mp=False, rng_seed=int(seed) % 1000, init=dict(kind="blocks"), label_script=dict(pattern=list(pattern)))
+
+
+def run_scripted(spec, res):
+    """The labelling of every round is scripted (forced history); bound, stopping rule, repopulation guard and
+    "returns what it scored" are then decided by the same trace oracle as for free-running runs."""
+    rng = np.random.default_rng(spec["seed"])
+    idx = 0
+    cases = []
+    for L in range(1, spec["maxlen"] + 1):
+        for pattern in itertools.product(SYMBOLS, repeat=L):
+            for limit in LIMITS:
+                idx += 1
+                if spec["maxlen"] <= 3 and L == 3 and (idx % 2):
+                    continue                      # quick tier: every second length-3 pattern (all of them in the thorough tier)
+                if idx % spec["parts"] == spec["part"]:
+                    K = 2 + (idx // spec["parts"]) % 2
+                    cases.append(scripted_case(pattern, limit, 1000 + idx, T=48 + 8 * (idx % 3), N=1 + idx % 2, W=1 + (idx // 7) % 2, K=K))
+    e2e_check.run_cases(res, cases, PROPS, lambda run, I: "s" if I.counts.get("rounds", 0) >= 2 else None, sample_every=200, coverage_props=())
+    res.counters["scripted_patterns_total"] = idx
+
+
+def run_scripted_big(spec, res):
+    """Many points, few label changes per round: a convergence test based on a *rate* of change cannot tell 1 moved point from none."""
+    pats = [["A", "A+1", "A+1", "A+1"], ["A+3", "A+1", "A", "A"], ["A", "A+1", "A", "A+1", "A"], ["A+2", "A+1", "A+1"],
+            ["A", "A+1", "A+2", "A+2"], ["A+1", "A", "A"], ["A", "A", "A+1"], ["A+1", "A+2", "A+1", "A+1"]]
+    pattern = pats[spec["idx"] % len(pats)]
+    case = scripted_case(pattern, 6, 5000 + spec["idx"], T=24000 + 1000 * (spec["idx"] % 3), N=1, W=1, K=2)
+    e2e_check.run_cases(res, [case], PROPS, lambda run, I: "b", coverage_props=())
+    res.count("scripted_big_runs")
+
+
 def run_shard(spec, res):
-    ec.run_e2e_shard(spec, res, PROPS, nontrivial)
+    if spec.get("what") == "scripted":
+        run_scripted(spec, res)
+    elif spec.get("what") == "scripted_big":
+        run_scripted_big(spec, res)
+    else:
+        ec.run_e2e_shard(spec, res, PROPS, nontrivial)
 
 
 def replay(case, res):
@@ -41,5 +97,7 @@ def finalize(merged, tier):
     ec.min_counter(merged, out, "repop_events", 5 if q else 50)
     ec.min_counter(merged, out, "task_certificates", 200 if q else 2000)
     ec.min_counter(merged, out, "final_optimality_checked", 60 if q else 600)
+    ec.min_counter(merged, out, "scripted_runs", 350 if q else 3000)
+    ec.min_counter(merged, out, "scripted_big_runs", 2 if q else 8)
     ec.unexpected(merged, out)
     return out
